@@ -516,6 +516,64 @@ func c13RunLateFailure(extended bool, end string, chunks int) explore.Result {
 	return res
 }
 
+// c13RunTwoCopies: the statement runs TWO copy-in cycles on the same DataWriter (the first ended by CopyDone): each
+// CopyIn call is announced to the client by a CopyInResponse of the requested format, each cycle's payloads reach
+// the handler, and the statement completes once.
+func c13RunTwoCopies(f1, f2 wire.FormatCode, extended bool) explore.Result {
+	var res explore.Result
+	res.Outcome = "completed"
+	res.Key = fmt.Sprint("two-copies", f1, f2, extended)
+	var seen []string
+	parse := func(ctx context.Context, q string) (wire.PreparedStatements, error) {
+		return wire.Prepared(wire.NewStatement(func(ctx context.Context, w wire.DataWriter, p []wire.Parameter) error {
+			for i, f := range []wire.FormatCode{f1, f2} {
+				cr, err := w.CopyIn(f)
+				if err != nil {
+					return err
+				}
+				for {
+					rerr := cr.Read()
+					if rerr == io.EOF {
+						break
+					}
+					if rerr != nil {
+						return rerr
+					}
+					seen = append(seen, fmt.Sprintf("copy %d: %q", i+1, cr.Msg))
+				}
+			}
+			return w.Complete("COPY 2")
+		}, wire.WithColumns(wire.Columns{{Name: "line", Oid: 25}}))), nil
+	}
+	one, err := harness.StartOne(parse)
+	if err != nil {
+		res.Engine = err.Error()
+		return res
+	}
+	defer one.Stop()
+	one.Step(pgproto.Startup("user", "u"))
+	start := pgproto.Query("q")
+	if extended {
+		start = pgproto.Cat(pgproto.Parse("", "q"), pgproto.Bind("", "", nil, nil, nil), pgproto.Execute("", 0))
+	}
+	o1, _ := one.Step(start)
+	one.Step(pgproto.CopyData([]byte("first\n")))
+	o2, _ := one.Step(pgproto.CopyDone())
+	one.Step(pgproto.CopyData([]byte("second\n")))
+	last := pgproto.CopyDone()
+	if extended {
+		last = pgproto.Cat(last, pgproto.Sync())
+	}
+	o3, _ := one.Step(last)
+	g := func(out []byte) string { return strings.TrimLeft(harness.Kinds(out), "T12") }
+	want := []string{`copy 1: "first\n"`, `copy 2: "second\n"`}
+	if g(o1) != "G" || g(o2) != "G" || g(o3) != "CZ" || !sameStrings(seen, want) {
+		res.Fail("copy-reply", fmt.Sprintf("a statement running two copy-in cycles (formats %d then %d, extended protocol: %v): start answered %q, the first CopyDone %q (expected the second CopyInResponse), the second CopyDone %q; the handler saw %v", f1, f2, extended, harness.Kinds(o1), harness.Kinds(o2), harness.Kinds(o3), seen))
+	}
+	res.Trans = []string{"copying|copy done|copying again"}
+	return res
+}
+
 func c13Depth(tier string) int {
 	if tier == "thorough" {
 		return 5
@@ -880,6 +938,15 @@ func c13Wide(emit explore.Emit) {
 }
 
 func c13Enumerate(tier string, emit explore.Emit) {
+	for _, f := range [][2]wire.FormatCode{{wire.TextFormat, wire.TextFormat}, {wire.BinaryFormat, wire.BinaryFormat}, {wire.TextFormat, wire.BinaryFormat}} {
+		for _, ext := range []bool{false, true} {
+			f, ext := f, ext
+			emit(explore.Case{Family: "late-failure", Size: 5, Desc: func() any {
+				return map[string]any{"handler": "two copy-in cycles on one writer", "formats": []int{int(f[0]), int(f[1])}, "extended_protocol": ext}
+			},
+				Run: func() explore.Result { return c13RunTwoCopies(f[0], f[1], ext) }})
+		}
+	}
 	// a value larger than the message limit that arrives in CopyData messages each within the limit: every payload
 	// reaches the binary reader, the value is delivered whole (C14's runner)
 	for _, cfg := range c14BigValueConfigs() {
